@@ -625,16 +625,13 @@ func CanonicalIsomorphAllocated(n, m int, neighbours [][]int, op *CanonicalOrder
 
 				//Update the orbits
 				for i := 0; i < n; i++ {
-					if tmp := op.order[currentBestPermInv[i]]; currentBestOrbits.FindBuffered(tmp, space) != currentBestOrbits.FindBuffered(i, space) {
-						currentBestOrbits.UnionBuffered(i, tmp, space)
-					}
+					mergeOrbits(currentBestOrbits, i, op.order[currentBestPermInv[i]], space)
 				}
 
 				mergesOrbits := false
 				//Update the orbits
 				for i := 0; i < n; i++ {
-					if tmp := op.order[currentBestPermInv[i]]; firstLeafOrbits.FindBuffered(tmp, space) != firstLeafOrbits.FindBuffered(i, space) {
-						firstLeafOrbits.UnionBuffered(i, tmp, space)
+					if mergeOrbits(firstLeafOrbits, i, op.order[currentBestPermInv[i]], space) {
 						mergesOrbits = true
 					}
 				}
@@ -675,8 +672,7 @@ func CanonicalIsomorphAllocated(n, m int, neighbours [][]int, op *CanonicalOrder
 				mergesOrbits := false
 				//Update the orbits
 				for i := 0; i < n; i++ {
-					if tmp := op.order[firstLeafPermInv[i]]; firstLeafOrbits.FindBuffered(tmp, space) != firstLeafOrbits.FindBuffered(i, space) {
-						firstLeafOrbits.UnionBuffered(i, tmp, space)
+					if mergeOrbits(firstLeafOrbits, i, op.order[firstLeafPermInv[i]], space) {
 						mergesOrbits = true
 					}
 				}
@@ -796,6 +792,22 @@ func CanonicalIsomorphAllocated(n, m int, neighbours [][]int, op *CanonicalOrder
 }
 
 //Below are various helper functions.
+
+//mergeOrbits merges the orbits containing x and y and returns true if they were different orbits.
+//The root of the merged orbit is always its largest element. The vertices of a cell are tried from the largest to the smallest so the root of an orbit is tried before every other element of the orbit.
+//This is what makes it safe for Heuristic 2 to skip every vertex which is not a root: with arbitrary roots, a vertex could be skipped in favour of a root which was itself skipped earlier using a different set of orbits (currentBestOrbits is reset with every new best leaf and is finer than firstLeafOrbits) and then no vertex of the orbit would be explored.
+func mergeOrbits(orbits disjoint.Set, x, y int, buf []int) bool {
+	x = orbits.FindBuffered(x, buf)
+	y = orbits.FindBuffered(y, buf)
+	if x == y {
+		return false
+	}
+	if x < y {
+		x, y = y, x
+	}
+	orbits[y] = x
+	return true
+}
 
 //zeroOut sets all the entries of a to be 0.
 //Note that this will be optimised to a memclr call.
